@@ -268,6 +268,10 @@ func (h *Harness) Report(kind string, c any, f *Failure) bool {
 		return true
 	}
 	h.violation(h.writeReplay(kind, c, f), f)
+	if strings.HasSuffix(f.Key, "|stall") {
+		h.Col.WritePart()
+		os.Exit(1)
+	}
 	h.mu.Lock()
 	defer h.mu.Unlock()
 	return h.viol < 5 // keep going a little so that independent root causes show up in one run
@@ -281,6 +285,13 @@ func (h *Harness) Fail(rt *rapid.T, kind string, c any, f *Failure) {
 	if kf := h.openMatch(f.Key); kf != nil {
 		h.Col.Excluded(kf.Key)
 		return
+	}
+	if strings.HasSuffix(f.Key, "|stall") {
+		// a spinning goroutine can neither be killed nor shrunk around in-process:
+		// report the current case, save the evidence and leave.
+		h.violation(h.writeReplay(kind, c, f), f)
+		h.Col.WritePart()
+		os.Exit(1)
 	}
 	raw, _ := json.Marshal(c)
 	h.mu.Lock()
